@@ -91,6 +91,19 @@ ROUND6 = {
     'C18': " Round 6: the stop flag is a latch (lowered only by the next start), fini() is among the emission sites that must stop the heartbeat first, and the facet key normaliser is total and applied after flattening (START cannot be lost to a key's spelling).",
 }
 
+# obligations added in round 7
+ROUND7 = {
+    'C03': " Round 7: a CLOSE withdraws a send permission decided while the client was still there; kept sets are dropped at entry only when the caller moved on (share of C01.R9).",
+    'C06': " Round 7: a CLOSE withdraws a send permission decided while the client was still there (share of C03.R6).",
+    'C08': " Round 7: the receive wait of loop_once services the request sockets of the outputs on every round (MQ.poll), so a waiting filter hears a downstream exit.",
+    'C10': " Round 7: GRAY label <=> 2-D pixels at construction and on relabelling; a conversion cache slot only ever holds a frame built with the format it is named after.",
+    'C12': " Round 7: a concrete bind host is kept when an explicit output becomes a source; numeric ids / sources are turned into text before any lookup.",
+    'C13': " Round 7: the 'nothing seen yet' timestamp of a rescan lies below every timestamp a file name can encode.",
+    'C15': " Round 7: `exc_info=True` / logger.exception() are sinks for the text of the exception being handled; a library call inside a try body may raise with its cut-URI arguments (urlparse().netloc is such a piece, x.rsplit('@', 1)[-1] removes the userinfo).",
+    'C17': " Round 7: a size with a zero side is refused by both parsers when the configuration is read.",
+    'C18': " Round 7: the heartbeat facets are read only for RUNNING events; every facet field takes its value through default_factory (no value can make START unbuildable).",
+}
+
 NOT_APPLICABLE = {
     'C11': 'Every clause is an equality between values computed by string parsing over an unbounded grammar; there is no renderer to pair with the parsers and the only structural facts in reach are already caught by the existing test_normalize_config tests, so a static proxy would detect nothing new (DESIGN.md §5).',
 }
@@ -105,7 +118,7 @@ def main():
         if pid not in reg:
             continue
         tech, text, ref, nd = CLAIMS[pid]
-        text += ROUND6.get(pid, '')
+        text += ROUND6.get(pid, '') + ROUND7.get(pid, '')
         checks.append({
             'property_id': pid,
             'quick_cmd': f'./check {pid} --tier quick',
